@@ -364,7 +364,9 @@ impl<T: SliceWrapperMut<u32> + SliceWrapper<u32> + BasicHashComputer> AnyHasher 
         let mut prev_ix: usize = cur_ix.wrapping_sub(cached_backward);
         let mut is_match_found = false;
         out.len_x_code = 0usize;
-        if prev_ix < cur_ix {
+        // the cached distance must lie in the window like any other candidate (the catable
+        // placeholder 0x7ffffff0 does not once positions pass 2 GiB)
+        if prev_ix < cur_ix && cached_backward <= max_backward {
             prev_ix &= ring_buffer_mask as u32 as usize;
             if compare_char == data[prev_ix.wrapping_add(best_len)] as i32 {
                 let len: usize = FindMatchLengthWithLimitMin4(
